@@ -113,6 +113,15 @@ NextC14 == \/ \E mode \in PutModes, root \in Roots, chs \in ChunkLists : Put(mod
            \/ \E mode \in SetModes, root \in Roots, a \in Addr, b \in Addr : SetTwo(mode, root, a, b)
            \/ \E cap \in {1, 2} : Collect(cap)
 
+\* C14, focused: everything under one file context, where operations consist of several storage writes
+\* (the file's gc entry is rewritten outside the batch once it counts more than one cached chunk)
+Singles == {<<<<a, v>>>> : a \in Addr, v \in {1}}
+NextC14F == \/ \E mode \in {"request", "requestpin", "uploadpin"}, chs \in Singles : Put(mode, "A", chs)
+            \/ \E mode \in {"request", "requestpin"}, a \in Addr, b \in Addr : a # b /\ Put(mode, "A", <<<<a, 1>>, <<b, 1>>>>)
+            \/ \E mode \in SetModes, a \in Addr : SetOne(mode, "A", a)
+            \/ \E a \in Addr, b \in Addr : SetTwo("pin", "A", a, b)
+            \/ \E cap \in {1, 2} : Collect(cap)
+
 Next == NextC11 \/ NextC14
 Spec == Init /\ [][Next]_vars
 
